@@ -10,7 +10,7 @@
       result is NULL for every oracle, the heap is as before. *)
 From CJ Require Import Base Dbl Heap Forest ForestLemmas CoreSpec CoreDefs CoreRefineBase CoreRefine CoreRefineDelete
   CoreRefineDupBase CoreRefineDupTree CoreRefineDupNode CoreRefineDupLoop CoreRefineDup CoreRefineDupForest
-  CoreRefineDupLimit.
+  CoreRefineDupLimit CoreRefineDupUnroll.
 From CJ.gen Require Import Constants.
 From stdpp Require Import gmap.
 From Coq Require Import Lia Floats.SpecFloat.
@@ -180,6 +180,53 @@ Proof.
   destruct H as [H|(tc & Hc & _)]; [|discriminate Hc].
   destruct H as (_ & W' & NL & E1 & E2 & E3 & E4 & _ & E6 & _).
   exists h2. split; [exact E|]. split; [done|]. split; [by apply NL, ex_NoLeak|]. by split_and!.
+Qed.
+
+(** the same through the forest-level statement for reference nodes ([dup_copy_ref]) *)
+Definition readableb (h : heap) (b : positive) : bool :=
+  bool_decide (b ∈ h_live h) && match h_str h !! b with Some s => existsb (Z.eqb 0) s | None => false end.
+Lemma readableb_sound h b : readableb h b = true -> readable h b.
+Proof.
+  unfold readableb. intros H. apply andb_true_iff in H as [H1 H2]. apply bool_decide_eq_true in H1.
+  destruct (h_str h !! b) as [s|] eqn:E; [|done]. exists s. by split.
+Qed.
+Definition node_readableb (h : heap) (e : fnode) : bool :=
+  match rd_vstr (fn_data e) with Some b => readableb h b | None => true end &&
+  match rd_key (fn_data e) with Some b => is_const (fn_data e) || readableb h b | None => true end.
+Lemma all_readable_check h F : forallb (node_readableb h) (flat F) = true -> all_readable h F.
+Proof.
+  intros H i d ks He. rewrite forallb_forall in H. specialize (H (i, d, ks) ltac:(by apply elem_of_list_In)).
+  unfold node_readableb in H. cbn in H. apply andb_true_iff in H as [H1 H2]. split.
+  - intros b Hb. rewrite Hb in H1. by apply readableb_sound.
+  - intros b Hb Hc. rewrite Hb, Hc in H2. by apply readableb_sound.
+Qed.
+Lemma refs_in_check F :
+  forallb (fun e : fnode => match rd_ref (fn_data e) with Some c => bool_decide (c ∈ ids F) | None => true end) (flat F) = true ->
+  refs_in F.
+Proof.
+  intros H i d ks c He Hc. rewrite forallb_forall in H. specialize (H (i, d, ks) ltac:(by apply elem_of_list_In)).
+  cbn in H. rewrite Hc in H. by apply bool_decide_eq_true in H.
+Qed.
+
+Lemma ex_refs_in : refs_in ex_F.
+Proof. apply refs_in_check. vm_compute. reflexivity. Qed.
+Lemma ex_all_readable : all_readable ex_h ex_F.
+Proof. apply all_readable_check. vm_compute. reflexivity. Qed.
+Lemma ex_unroll :
+  unroll ex_F (Z.to_nat c_CJSON_CIRCULAR_LIMIT) (T 6 d6 [T 7 d7 []; T 10 d10 []; T 11 d11 []; T 15 d15 []])%positive = ex_t.
+Proof. vm_compute. reflexivity. Qed.
+
+Theorem ex_success_ref :
+  exists tc h',
+    cJSON_Duplicate orc0 (Some 6%positive) true ex_h = Ret (Some (tid tc), h') /\
+    WF h' (ex_F ++ [tc]) /\ copy_of h' ex_t tc.
+Proof.
+  destruct (dup_copy_ref orc0 ex_h ex_F 6%positive _ ex_WF ex_closed ex_refs_in ex_all_readable eq_refl)
+    as (r & h' & Hrun & H).
+  rewrite ex_unroll in H. destruct H as [H|H].
+  - destruct H as (_ & _ & _ & _ & _ & _ & _ & _ & _ & _ & Hof). destruct (Hof ex_complete) as (j & _ & Hj).
+    discriminate.
+  - destruct H as (tc & -> & W' & _ & Hcp & _). by exists tc, h'.
 Qed.
 
 (** * cyclic structures *)
